@@ -79,6 +79,18 @@ func c16Gen(c *engine.C) engine.Case {
 		}
 	}
 	addFiles("", "root-", 0)
+	if c.Bool("one-directory-with-a-file-of-every-language") {
+		// more languages than the top-file tables print (5); two languages with several files in growing size
+		c.Tag("many-languages")
+		dirs = append(dirs, "poly")
+		for li, l := range c16Langs {
+			files = append(files, c16File{Dir: "poly", Lang: l.Lang, Code: 2 + li%3, Name: fmt.Sprintf("p%d%s", li, l.Ext)})
+		}
+		for k, code := range []int{4, 9, 6} {
+			files = append(files, c16File{Dir: "poly", Lang: "Java", Code: code, Name: fmt.Sprintf("q%d.java", k)},
+				c16File{Dir: "poly", Lang: "C", Code: code + 1, Name: fmt.Sprintf("q%d.c", k)})
+		}
+	}
 	var ignored []string
 	special := engine.PickTag(c, "special-dirs", "none", ".git", ".idea", "coca_reporter", "empty-dir", ".idea+empty")
 	emptyDir := false
